@@ -299,6 +299,13 @@ def _sp_post(ctx):
     if r["keys"] != s["keys"]:
         REC.violation(PROP, "splice", "audioSplice", case, "tier names %r, expected %r" % (r["keys"], s["keys"]), sig, mech)
         return
+    if all(t["min"] == s["min"] and t["max"] == s["max"] for t in s["tiers"]):
+        # "audio and a textgrid whose durations agree": the textgrid as a whole - if all its tiers ended with it before the splice,
+        # they all end with it afterwards (a tier left at the old length no longer belongs to the recording)
+        off = [(t["name"], t["max"]) for t in r["tiers"] if abs(t["max"] - r["max"]) > 1e-9 * max(1.0, abs(r["max"]))]
+        if off:
+            REC.violation(PROP, "splice", "audioSplice", case, "the textgrid ends at %r but tier(s) %r do not (all tiers ended with the textgrid before the splice)" % (r["max"], off), sig, dict(mech, tier_span=True))
+            return
     tt = r["tiers"][r["keys"].index(tierName)]
     fresh = not any(e[-1] == label for e in s["tiers"][s["keys"].index(tierName)]["entries"])
     new = [e for e in tt["entries"] if e[-1] == label]
@@ -643,6 +650,10 @@ def _workload(tier, rng, shard, nshards, work=None):
                 REC.cls("C18:splice:replaces-the-end-of-a-same-labelled-entry")
                 guarded(praatio_scripts.audioSplice, target, seg, tg, "words", lab, start, stop, False)
                 target = wav.new()
+        if k % 7 == 3:
+            # the segment is a stretch of the recording itself - all of it, as it happens (said twice)
+            seg = target.getSubwav(0.0, len(target.frames) // target.sampleWidth / rate)
+            REC.cls("C18:splice:segment-is-the-whole-recording-via-getSubwav")
         out = guarded(praatio_scripts.audioSplice, target, seg, tg, "words", lab, start, stop, rng.random() < 0.5)
         if isinstance(out, tuple) and len(out) == 2 and k % 3 == 0:
             # a second take: the spliced recording is spliced again, the replaced stretch reaching into what the first splice added
